@@ -11,6 +11,18 @@ From Coq Require Import Arith List Lia Bool Ring.
 Require Import Yui.Base.Ring Yui.Base.MatF Yui.Base.MatL Yui.Model.Dense.
 Import ListNotations.
 
+Ltac splits := repeat match goal with |- _ /\ _ => split end.
+
+Ltac eqb_cases :=
+  repeat (match goal with
+          | |- context [Nat.eqb ?a ?b] => is_var a; is_var b; destruct (Nat.eqb_spec a b)
+          | H : context [Nat.eqb ?a ?b] |- _ => is_var a; is_var b; destruct (Nat.eqb_spec a b)
+          end; subst);
+  repeat (match goal with
+          | |- context [Nat.eqb ?a ?b] => destruct (Nat.eqb_spec a b)
+          end; subst);
+  try reflexivity; try congruence; try lia.
+
 Section DenseProofs.
   Context {R : Type} (o : ring_ops R) (L : ring_laws o).
 
@@ -38,14 +50,14 @@ Section DenseProofs.
 
   Lemma d_is_mk m n f : d_is (d_mk m n f) m n f.
   Proof.
-    unfold d_is. cbn [dm dn d_mk]. repeat split; try apply d_wf_mk.
+    unfold d_is. cbn [dm dn d_mk]. splits; try reflexivity; try apply d_wf_mk.
     intros i j Hi Hj. now apply d_get_mk.
   Qed.
 
   Lemma d_is_ext B m n f g :
     d_is B m n f -> (forall i j, (i < m)%nat -> (j < n)%nat -> f i j = g i j) -> d_is B m n g.
   Proof.
-    intros (H1 & H2 & H3 & H4) E. repeat split; try assumption.
+    intros (H1 & H2 & H3 & H4) E. unfold d_is. splits; try assumption.
     intros i j Hi Hj. rewrite H4 by assumption. now apply E.
   Qed.
 
@@ -85,11 +97,11 @@ Section DenseProofs.
     | None => (m < length es)%nat \/ (n < length es)%nat
     end.
   Proof.
-    unfold d_diag. destruct (length es <=? m) eqn:E1; destruct (length es <=? n) eqn:E2; cbn [andb].
-    - apply Nat.leb_le in E1, E2. repeat split; try assumption; apply d_is_mk.
-    - apply Nat.leb_gt in E2. now right.
-    - apply Nat.leb_gt in E1. now left.
-    - apply Nat.leb_gt in E1. now left.
+    unfold d_diag. destruct (Nat.leb_spec (length es) m) as [E1|E1]; destruct (Nat.leb_spec (length es) n) as [E2|E2]; cbn [andb].
+    - splits; try assumption; apply d_is_mk.
+    - now right.
+    - now left.
+    - now left.
   Qed.
 
   (* ---------- Mat::iter and the predicates built on it ---------- *)
@@ -99,9 +111,10 @@ Section DenseProofs.
     unfold d_iter. rewrite in_map_iff. split.
     - intros [k [E Hk]]. apply in_seq in Hk. inversion E; subst; clear E.
       assert (Hm : (dm A <> 0)%nat) by (intros Z; rewrite Z in Hk; cbn in Hk; lia).
-      repeat split.
+      splits.
       + apply Nat.mod_upper_bound. exact Hm.
       + apply Nat.div_lt_upper_bound; [exact Hm|lia].
+      + reflexivity.
     - intros (Hi & Hj & ->). exists (i + j * dm A)%nat.
       assert (Hm : (dm A <> 0)%nat) by lia.
       assert (E1 : ((i + j * dm A) mod dm A = i)%nat).
@@ -163,12 +176,10 @@ Section DenseProofs.
     end.
   Proof.
     unfold d_submat.
-    destruct (i0 <=? i1) eqn:E1; destruct (i1 <=? dm A) eqn:E2; destruct (j0 <=? j1) eqn:E3;
-      destruct (j1 <=? dn A) eqn:E4; cbn [andb];
-      try apply Nat.leb_le in E1; try apply Nat.leb_le in E2; try apply Nat.leb_le in E3;
-      try apply Nat.leb_le in E4; try apply Nat.leb_gt in E1; try apply Nat.leb_gt in E2;
-      try apply Nat.leb_gt in E3; try apply Nat.leb_gt in E4; try lia.
-    repeat split; try assumption; apply d_is_mk.
+    destruct (Nat.leb_spec i0 i1) as [E1|E1]; destruct (Nat.leb_spec i1 (dm A)) as [E2|E2];
+      destruct (Nat.leb_spec j0 j1) as [E3|E3]; destruct (Nat.leb_spec j1 (dn A)) as [E4|E4]; cbn [andb];
+      try lia.
+    splits; try assumption; apply d_is_mk.
   Qed.
 
   Lemma d_submat_rows_eq A i0 i1 : d_submat_rows o A i0 i1 = d_submat o A i0 i1 0 (dn A).
@@ -186,10 +197,9 @@ Section DenseProofs.
     | None => ~ (dm A = dm B /\ dn A = dn B)
     end.
   Proof.
-    unfold d_add. destruct (dm A =? dm B) eqn:E1; destruct (dn A =? dn B) eqn:E2; cbn [andb];
-      try apply Nat.eqb_eq in E1; try apply Nat.eqb_eq in E2; try apply Nat.eqb_neq in E1;
-      try apply Nat.eqb_neq in E2; try tauto.
-    repeat split; try assumption; apply d_is_mk.
+    unfold d_add. destruct (Nat.eqb_spec (dm A) (dm B)) as [E1|E1]; destruct (Nat.eqb_spec (dn A) (dn B)) as [E2|E2]; cbn [andb];
+      try tauto.
+    splits; try assumption; apply d_is_mk.
   Qed.
 
   Lemma d_sub_spec A B :
@@ -198,10 +208,9 @@ Section DenseProofs.
     | None => ~ (dm A = dm B /\ dn A = dn B)
     end.
   Proof.
-    unfold d_sub. destruct (dm A =? dm B) eqn:E1; destruct (dn A =? dn B) eqn:E2; cbn [andb];
-      try apply Nat.eqb_eq in E1; try apply Nat.eqb_eq in E2; try apply Nat.eqb_neq in E1;
-      try apply Nat.eqb_neq in E2; try tauto.
-    repeat split; try assumption; apply d_is_mk.
+    unfold d_sub. destruct (Nat.eqb_spec (dm A) (dm B)) as [E1|E1]; destruct (Nat.eqb_spec (dn A) (dn B)) as [E2|E2]; cbn [andb];
+      try tauto.
+    splits; try assumption; apply d_is_mk.
   Qed.
 
   (* the product: defined (and equal to the mathematical product) when the inner dimensions agree; a
@@ -214,9 +223,8 @@ Section DenseProofs.
     | None => dn A <> dm B /\ dn B <> 0%nat
     end.
   Proof.
-    unfold d_mul. destruct (dn A =? dm B) eqn:E1; destruct (dn B =? 0) eqn:E2; cbn [orb];
-      try apply Nat.eqb_eq in E1; try apply Nat.eqb_eq in E2; try apply Nat.eqb_neq in E1;
-      try apply Nat.eqb_neq in E2; try (split; [tauto|apply d_is_mk]).
+    unfold d_mul. destruct (Nat.eqb_spec (dn A) (dm B)) as [E1|E1]; destruct (Nat.eqb_spec (dn B) 0) as [E2|E2]; cbn [orb];
+      try (split; [tauto|apply d_is_mk]).
     tauto.
   Qed.
 
@@ -269,39 +277,16 @@ Section DenseProofs.
     | None => ~ ((i < dm A)%nat /\ (j < dm A)%nat)
     end.
   Proof.
-    unfold d_swap_rows. destruct (i <? dm A) eqn:E1; destruct (j <? dm A) eqn:E2; cbn [andb];
-      try apply Nat.ltb_lt in E1; try apply Nat.ltb_lt in E2; try apply Nat.ltb_ge in E1;
-      try apply Nat.ltb_ge in E2; try lia.
-    repeat split; try assumption; apply d_is_mk.
+    unfold d_swap_rows. destruct (Nat.ltb_spec i (dm A)) as [E1|E1]; destruct (Nat.ltb_spec j (dm A)) as [E2|E2]; cbn [andb];
+      try lia.
+    splits; try assumption; apply d_is_mk.
   Qed.
 
   Lemma e_swap_row i j k t : e_swap o i j k t = if t =? swap_idx i j k then 1 else 0.
-  Proof.
-    unfold e_swap, swap_idx. destruct (k =? i); [reflexivity|]. destruct (k =? j); [reflexivity|].
-    now rewrite Nat.eqb_sym.
-  Qed.
+  Proof. unfold e_swap, swap_idx. eqb_cases. Qed.
 
   Lemma e_swap_col i j t l : e_swap o i j t l = if t =? swap_idx i j l then 1 else 0.
-  Proof.
-    unfold e_swap, swap_idx.
-    destruct (Nat.eqb_spec t i) as [->|Hti].
-    - destruct (Nat.eqb_spec l j) as [->|Hlj].
-      + destruct (Nat.eqb_spec j i); [now rewrite Nat.eqb_refl|]. now rewrite Nat.eqb_refl.
-      + destruct (Nat.eqb_spec l i) as [->|Hli].
-        * destruct (Nat.eqb_spec i j); [congruence|reflexivity].
-        * destruct (Nat.eqb_spec i l); [congruence|reflexivity].
-    - destruct (Nat.eqb_spec t j) as [->|Htj].
-      + destruct (Nat.eqb_spec l i) as [->|Hli].
-        * now rewrite Nat.eqb_refl.
-        * destruct (Nat.eqb_spec l j) as [->|Hlj].
-          -- destruct (Nat.eqb_spec j i); [congruence|reflexivity].
-          -- destruct (Nat.eqb_spec j l); [congruence|reflexivity].
-      + destruct (Nat.eqb_spec l i) as [->|Hli].
-        * destruct (Nat.eqb_spec t i); [congruence|]. destruct (Nat.eqb_spec t j); [congruence|reflexivity].
-        * destruct (Nat.eqb_spec l j) as [->|Hlj].
-          -- destruct (Nat.eqb_spec t j); [congruence|]. destruct (Nat.eqb_spec t i); [congruence|reflexivity].
-          -- reflexivity.
-  Qed.
+  Proof. unfold e_swap, swap_idx. eqb_cases. Qed.
 
   Lemma swap_idx_lt i j k m : (i < m)%nat -> (j < m)%nat -> (k < m)%nat -> (swap_idx i j k < m)%nat.
   Proof. intros. unfold swap_idx. destruct (k =? i); [assumption|]. destruct (k =? j); assumption. Qed.
@@ -312,7 +297,7 @@ Section DenseProofs.
     meq (dm A) (dn A) (d_get o B) (mmul o (dm A) (e_swap o i j) (d_get o A)).
   Proof.
     intros E. pose proof (d_swap_rows_spec A i j) as S. rewrite E in S.
-    destruct S as (Hi & Hj & (H1 & H2 & H3 & H4)). repeat split; try assumption.
+    destruct S as (Hi & Hj & (H1 & H2 & H3 & H4)). splits; try assumption.
     intros k l Hk Hl. rewrite H4 by assumption. unfold mmul.
     rewrite (sum_ext o (dm A) _ (fun t => (if t =? swap_idx i j k then 1 else 0) * d_get o A t l)).
     - rewrite sum_pick by (now apply swap_idx_lt). ring.
@@ -340,7 +325,7 @@ Section DenseProofs.
     meq (dm A) (dn A) (d_get o B) (mmul o (dm A) (e_scal o i r) (d_get o A)).
   Proof.
     intros E. pose proof (d_mul_row_spec A i r) as S. rewrite E in S.
-    destruct S as (Hi & (H1 & H2 & H3 & H4)). repeat split; try assumption.
+    destruct S as (Hi & (H1 & H2 & H3 & H4)). splits; try assumption.
     intros k l Hk Hl. rewrite H4 by assumption. unfold mmul.
     rewrite (sum_ext o (dm A) _ (fun t => (if t =? k then (if k =? i then r else 1) else 0) * d_get o A t l)).
     - rewrite sum_pick by assumption. destruct (k =? i); ring.
@@ -355,10 +340,9 @@ Section DenseProofs.
     | None => ~ ((i < dm A)%nat /\ (j < dm A)%nat)
     end.
   Proof.
-    unfold d_add_row_to. destruct (i <? dm A) eqn:E1; destruct (j <? dm A) eqn:E2; cbn [andb];
-      try apply Nat.ltb_lt in E1; try apply Nat.ltb_lt in E2; try apply Nat.ltb_ge in E1;
-      try apply Nat.ltb_ge in E2; try lia.
-    repeat split; try assumption; apply d_is_mk.
+    unfold d_add_row_to. destruct (Nat.ltb_spec i (dm A)) as [E1|E1]; destruct (Nat.ltb_spec j (dm A)) as [E2|E2]; cbn [andb];
+      try lia.
+    splits; try assumption; apply d_is_mk.
   Qed.
 
   (* row j of [e_add i j r] is e_j + r e_i, every other row k is e_k *)
@@ -375,7 +359,7 @@ Section DenseProofs.
     meq (dm A) (dn A) (d_get o B) (mmul o (dm A) (e_add o i j r) (d_get o A)).
   Proof.
     intros E. pose proof (d_add_row_to_spec A i j r) as S. rewrite E in S.
-    destruct S as (Hi & Hj & (H1 & H2 & H3 & H4)). repeat split; try assumption.
+    destruct S as (Hi & Hj & (H1 & H2 & H3 & H4)). splits; try assumption.
     intros k l Hk Hl. rewrite H4 by assumption. unfold mmul.
     rewrite (sum_ext o (dm A) _
       (fun t => ((if t =? k then 1 else 0) + (if t =? i then (if k =? j then r else 0) else 0)) * d_get o A t l)).
@@ -393,10 +377,9 @@ Section DenseProofs.
     | None => ~ ((i < dm A)%nat /\ (j < dm A)%nat)
     end.
   Proof.
-    unfold d_left_elementary. destruct (i <? dm A) eqn:E1; destruct (j <? dm A) eqn:E2; cbn [andb];
-      try apply Nat.ltb_lt in E1; try apply Nat.ltb_lt in E2; try apply Nat.ltb_ge in E1;
-      try apply Nat.ltb_ge in E2; try lia.
-    repeat split; try assumption; apply d_is_mk.
+    unfold d_left_elementary. destruct (Nat.ltb_spec i (dm A)) as [E1|E1]; destruct (Nat.ltb_spec j (dm A)) as [E2|E2]; cbn [andb];
+      try lia.
+    splits; try assumption; apply d_is_mk.
   Qed.
 
   Lemma e_elem_row a b c d i j k t : i <> j ->
@@ -404,21 +387,7 @@ Section DenseProofs.
       (if t =? i then (if k =? i then a else if k =? j then c else 0) else 0) +
       (if t =? j then (if k =? i then b else if k =? j then d else 0) else 0) +
       (if t =? k then (if k =? i then 0 else if k =? j then 0 else 1) else 0).
-  Proof.
-    intros Hij. unfold e_elem.
-    destruct (Nat.eqb_spec k i) as [->|Hki].
-    - destruct (Nat.eqb_spec t i) as [->|Hti].
-      + destruct (Nat.eqb_spec i j); [congruence|]. ring.
-      + destruct (Nat.eqb_spec t j); ring.
-    - destruct (Nat.eqb_spec k j) as [->|Hkj].
-      + destruct (Nat.eqb_spec t i) as [->|Hti].
-        * destruct (Nat.eqb_spec i j); [congruence|]. ring.
-        * destruct (Nat.eqb_spec t j); ring.
-      + rewrite (Nat.eqb_sym k t).
-        destruct (Nat.eqb_spec t k) as [->|Htk].
-        * destruct (Nat.eqb_spec k i); [congruence|]. destruct (Nat.eqb_spec k j); [congruence|]. ring.
-        * destruct (Nat.eqb_spec t i); destruct (Nat.eqb_spec t j); ring.
-  Qed.
+  Proof. intros Hij. unfold e_elem. eqb_cases; ring. Qed.
 
   Lemma sum_pick3 n s1 c1 s2 c2 s3 c3 (f : nat -> R) :
     (s1 < n)%nat -> (s2 < n)%nat -> (s3 < n)%nat ->
@@ -440,7 +409,7 @@ Section DenseProofs.
     meq (dm A) (dn A) (d_get o B) (mmul o (dm A) (e_elem o a b c d i j) (d_get o A)).
   Proof.
     intros Hij E. pose proof (d_left_elementary_spec A a b c d i j) as S. rewrite E in S.
-    destruct S as (Hi & Hj & (H1 & H2 & H3 & H4)). repeat split; try assumption.
+    destruct S as (Hi & Hj & (H1 & H2 & H3 & H4)). splits; try assumption.
     intros k l Hk Hl. rewrite H4 by assumption. unfold mmul.
     rewrite (sum_ext o (dm A) _ (fun t =>
       ((if t =? i then (if k =? i then a else if k =? j then c else 0) else 0) +
@@ -474,10 +443,9 @@ Section DenseProofs.
     | None => ~ ((i < dn A)%nat /\ (j < dn A)%nat)
     end.
   Proof.
-    unfold d_swap_cols. destruct (i <? dn A) eqn:E1; destruct (j <? dn A) eqn:E2; cbn [andb];
-      try apply Nat.ltb_lt in E1; try apply Nat.ltb_lt in E2; try apply Nat.ltb_ge in E1;
-      try apply Nat.ltb_ge in E2; try lia.
-    repeat split; try assumption; apply d_is_mk.
+    unfold d_swap_cols. destruct (Nat.ltb_spec i (dn A)) as [E1|E1]; destruct (Nat.ltb_spec j (dn A)) as [E2|E2]; cbn [andb];
+      try lia.
+    splits; try assumption; apply d_is_mk.
   Qed.
 
   Theorem d_swap_cols_mmul A i j B :
@@ -486,7 +454,7 @@ Section DenseProofs.
     meq (dm A) (dn A) (d_get o B) (mmul o (dn A) (d_get o A) (e_swap o i j)).
   Proof.
     intros E. pose proof (d_swap_cols_spec A i j) as S. rewrite E in S.
-    destruct S as (Hi & Hj & (H1 & H2 & H3 & H4)). repeat split; try assumption.
+    destruct S as (Hi & Hj & (H1 & H2 & H3 & H4)). splits; try assumption.
     intros k l Hk Hl. rewrite H4 by assumption. unfold mmul.
     rewrite (sum_ext o (dn A) _ (fun t => d_get o A k t * (if t =? swap_idx i j l then 1 else 0))).
     - rewrite sum_pick_r by (now apply swap_idx_lt). ring.
@@ -511,7 +479,7 @@ Section DenseProofs.
     meq (dm A) (dn A) (d_get o B) (mmul o (dn A) (d_get o A) (e_scal o j r)).
   Proof.
     intros E. pose proof (d_mul_col_spec A j r) as S. rewrite E in S.
-    destruct S as (Hj & (H1 & H2 & H3 & H4)). repeat split; try assumption.
+    destruct S as (Hj & (H1 & H2 & H3 & H4)). splits; try assumption.
     intros k l Hk Hl. rewrite H4 by assumption. unfold mmul.
     rewrite (sum_ext o (dn A) _ (fun t => d_get o A k t * (if t =? l then (if l =? j then r else 1) else 0))).
     - rewrite sum_pick_r by assumption. destruct (l =? j); ring.
@@ -526,10 +494,9 @@ Section DenseProofs.
     | None => ~ ((i < dn A)%nat /\ (j < dn A)%nat)
     end.
   Proof.
-    unfold d_add_col_to. destruct (i <? dn A) eqn:E1; destruct (j <? dn A) eqn:E2; cbn [andb];
-      try apply Nat.ltb_lt in E1; try apply Nat.ltb_lt in E2; try apply Nat.ltb_ge in E1;
-      try apply Nat.ltb_ge in E2; try lia.
-    repeat split; try assumption; apply d_is_mk.
+    unfold d_add_col_to. destruct (Nat.ltb_spec i (dn A)) as [E1|E1]; destruct (Nat.ltb_spec j (dn A)) as [E2|E2]; cbn [andb];
+      try lia.
+    splits; try assumption; apply d_is_mk.
   Qed.
 
   (* column l of [e_add j i r] (= I + r E_{i,j}) is e_l + [l = j] r e_i *)
@@ -544,7 +511,7 @@ Section DenseProofs.
     meq (dm A) (dn A) (d_get o B) (mmul o (dn A) (d_get o A) (e_add o j i r)).
   Proof.
     intros E. pose proof (d_add_col_to_spec A i j r) as S. rewrite E in S.
-    destruct S as (Hi & Hj & (H1 & H2 & H3 & H4)). repeat split; try assumption.
+    destruct S as (Hi & Hj & (H1 & H2 & H3 & H4)). splits; try assumption.
     intros k l Hk Hl. rewrite H4 by assumption. unfold mmul.
     rewrite (sum_ext o (dn A) _
       (fun t => d_get o A k t * ((if t =? l then 1 else 0) + (if t =? i then (if l =? j then r else 0) else 0)))).
@@ -562,10 +529,9 @@ Section DenseProofs.
     | None => ~ ((i < dn A)%nat /\ (j < dn A)%nat)
     end.
   Proof.
-    unfold d_right_elementary. destruct (i <? dn A) eqn:E1; destruct (j <? dn A) eqn:E2; cbn [andb];
-      try apply Nat.ltb_lt in E1; try apply Nat.ltb_lt in E2; try apply Nat.ltb_ge in E1;
-      try apply Nat.ltb_ge in E2; try lia.
-    repeat split; try assumption; apply d_is_mk.
+    unfold d_right_elementary. destruct (Nat.ltb_spec i (dn A)) as [E1|E1]; destruct (Nat.ltb_spec j (dn A)) as [E2|E2]; cbn [andb];
+      try lia.
+    splits; try assumption; apply d_is_mk.
   Qed.
 
   Lemma e_elem_col a b c d i j t l : i <> j ->
@@ -573,23 +539,7 @@ Section DenseProofs.
       (if t =? i then (if l =? i then a else if l =? j then b else 0) else 0) +
       (if t =? j then (if l =? i then c else if l =? j then d else 0) else 0) +
       (if t =? l then (if l =? i then 0 else if l =? j then 0 else 1) else 0).
-  Proof.
-    intros Hij. unfold e_elem.
-    destruct (Nat.eqb_spec t i) as [->|Hti].
-    - destruct (Nat.eqb_spec i j); [congruence|].
-      destruct (Nat.eqb_spec l i) as [->|Hli].
-      + rewrite Nat.eqb_refl. ring.
-      + destruct (Nat.eqb_spec i l); [congruence|]. destruct (Nat.eqb_spec l j); ring.
-    - destruct (Nat.eqb_spec t j) as [->|Htj].
-      + destruct (Nat.eqb_spec l i) as [->|Hli].
-        * destruct (Nat.eqb_spec j i); [congruence|]. ring.
-        * destruct (Nat.eqb_spec l j) as [->|Hlj].
-          -- rewrite Nat.eqb_refl. ring.
-          -- destruct (Nat.eqb_spec j l); [congruence|]. ring.
-      + destruct (Nat.eqb_spec t l) as [->|Htl].
-        * destruct (Nat.eqb_spec l i); [congruence|]. destruct (Nat.eqb_spec l j); [congruence|]. ring.
-        * ring.
-  Qed.
+  Proof. intros Hij. unfold e_elem. eqb_cases; ring. Qed.
 
   Lemma sum_pick3_r n s1 c1 s2 c2 s3 c3 (f : nat -> R) :
     (s1 < n)%nat -> (s2 < n)%nat -> (s3 < n)%nat ->
@@ -611,7 +561,7 @@ Section DenseProofs.
     meq (dm A) (dn A) (d_get o B) (mmul o (dn A) (d_get o A) (e_elem o a c b d i j)).
   Proof.
     intros Hij E. pose proof (d_right_elementary_spec A a b c d i j) as S. rewrite E in S.
-    destruct S as (Hi & Hj & (H1 & H2 & H3 & H4)). repeat split; try assumption.
+    destruct S as (Hi & Hj & (H1 & H2 & H3 & H4)). splits; try assumption.
     intros k l Hk Hl. rewrite H4 by assumption. unfold mmul.
     rewrite (sum_ext o (dn A) _ (fun t => d_get o A k t *
       ((if t =? i then (if l =? i then a else if l =? j then c else 0) else 0) +
@@ -631,6 +581,6 @@ Section DenseProofs.
     intros WA WB. unfold d_eqb. rewrite !andb_true_iff, !Nat.eqb_eq, (leqb_meq o L). split.
     - intros [[E1 E2] E3]. destruct A as [ma na da], B as [mb nb db]. cbn [dm dn dd] in *. subst.
       f_equal. apply (lmat_ext o mb nb); assumption.
-    - intros ->. repeat split. intros i j _ _. reflexivity.
+    - intros ->. splits; try reflexivity. intros i j _ _. reflexivity.
   Qed.
 End DenseProofs.
